@@ -1,3 +1,4 @@
 pub mod cal;
 pub mod tl;
 pub mod fmt;
+pub mod cron;
